@@ -28,6 +28,10 @@ func newAPI() *webrtc.API {
 		PayloadType:        96,
 	}, webrtc.RTPCodecTypeVideo)
 	m.RegisterCodec(webrtc.RTPCodecParameters{
+		RTPCodecCapability: webrtc.RTPCodecCapability{MimeType: webrtc.MimeTypeVP9, ClockRate: 90000, SDPFmtpLine: "profile-id=0", RTCPFeedback: videoFb},
+		PayloadType:        98,
+	}, webrtc.RTPCodecTypeVideo)
+	m.RegisterCodec(webrtc.RTPCodecParameters{
 		RTPCodecCapability: webrtc.RTPCodecCapability{MimeType: webrtc.MimeTypeOpus, ClockRate: 48000, Channels: 2, SDPFmtpLine: "minptime=10;useinbandfec=1"},
 		PayloadType:        111,
 	}, webrtc.RTPCodecTypeAudio)
@@ -91,6 +95,7 @@ func Active(ms []MLine) []MLine {
 type TrackSpec struct {
 	Kind string // audio | video
 	ID   string // track id chosen by the publisher (reappears in the subscriber's msid)
+	VP9  bool   // video only: publish as VP9 (profile 0) instead of VP8
 }
 
 type UpTrack struct {
@@ -490,6 +495,9 @@ func (p *Peer) Publish(id, label string, tracks []TrackSpec, replace string) (*U
 			cap = webrtc.RTPCodecCapability{MimeType: webrtc.MimeTypeOpus, ClockRate: 48000, Channels: 2}
 		} else {
 			cap = webrtc.RTPCodecCapability{MimeType: webrtc.MimeTypeVP8, ClockRate: 90000}
+			if ts.VP9 {
+				cap = webrtc.RTPCodecCapability{MimeType: webrtc.MimeTypeVP9, ClockRate: 90000, SDPFmtpLine: "profile-id=0"}
+			}
 		}
 		local, err := webrtc.NewTrackLocalStaticRTP(cap, ts.ID, "stream-"+id)
 		if err != nil {
